@@ -234,6 +234,29 @@ def validate(ctx, trace_path, tag, prefixes):
                     len(part), pre, len(ctx.violations) - before))
 
 
+def validate_chunked(ctx, trace_path, tag, prefixes, max_lines=100000):
+    """validate a big trace in chunks cut at scenario boundaries (TLC holds the whole trace in memory)."""
+    chunk, part, paths = [], 0, []
+    with open(trace_path) as f:
+        for line in f:
+            if '"ev":"Scenario"' in line and len(chunk) >= max_lines:
+                path = "%s.part%d" % (trace_path, part)
+                with open(path, "w") as g:
+                    g.writelines(chunk)
+                paths.append((path, "%s.%d" % (tag, part)))
+                chunk, part = [], part + 1
+            chunk.append(line)
+    if not paths:
+        return validate(ctx, trace_path, tag, prefixes)
+    path = "%s.part%d" % (trace_path, part)
+    with open(path, "w") as g:
+        g.writelines(chunk)
+    paths.append((path, "%s.%d" % (tag, part)))
+    for path, t in paths:
+        validate(ctx, path, t, prefixes)
+        os.remove(path)
+
+
 def account(ctx, trace_path):
     for ev in vlib.read_ndjson(trace_path):
         if ev["ev"] != "Step":
@@ -277,13 +300,13 @@ def run_stage(ctx, prefixes):
         ctx.cov["edges_replayed_on_impl"] += info["edges"]
         ctx.stage("real-replay-" + name, **info)
         account(ctx, trace)
-        validate(ctx, trace, name, prefixes)
+        validate_chunked(ctx, trace, name, prefixes)
     nrandom, steps = (1500, 40) if ctx.quick else (8000, 60)
     rnd = os.path.join(ctx.scratch, "na-trace-rnd.ndjson")
     p = vlib.run_harness(binary, ["-random", str(nrandom), "-steps", str(steps), "-seed", str(ctx.seed), "-out", rnd])
     ctx.stage("real-run-random", **json.loads(p.stdout.strip().splitlines()[-1]))
     account(ctx, rnd)
-    validate(ctx, rnd, "rnd", prefixes)
+    validate_chunked(ctx, rnd, "rnd", prefixes)
 
 
 def replay_stage(ctx, obj, prefixes):
